@@ -99,8 +99,11 @@ CLAIMS = {
         text="Proof (Lean 4), J1939-21: a receive record fed ANY fewer-than-all 8-byte TP.DT frames (any content: arbitrary losses) delivers "
              "nothing and never completes — truncated or shifted payloads are impossible; fed all packets in order it delivers the exact payload "
              "once; a record whose deadline passed is removed by the pass, with TP.Conn_Abort reason 3 + session PGN for connection mode (both "
-             "sides) and nothing for broadcast; all reflected timeouts <= 1.25 s; the pair is free afterwards.  Partial: J1939-22 (FD, known "
-             "defect D4) is covered by correspondence/oracle only.",
+             "sides) and nothing for broadcast; all reflected timeouts <= 1.25 s; the pair is free afterwards.  J1939-22: an FD.TP.DT segment that is not the one expected next (after a "
+             "loss, duplicate or reordering) changes nothing; the end-of-message status hands a message up ONLY when the record holds exactly "
+             "the announced number of bytes with the session's size and segment count, otherwise it aborts (reason 2), hands up and "
+             "acknowledges nothing and removes the record (repair of D4); with C02's reception theorem: exact payload or nothing.  Partial: "
+             "J1939-22 give-up times and abort contents after silence are covered by correspondence (lossy scripts) and oracle.",
         note="Composes with C07 (no record with a past deadline survives a pass). Oracle: every transfer shape x lost k-th frame / silent "
              "peer from k-th frame (exhaustive in the thorough tier), give-up times, abort contents, follow-up transfer.",
         technique="Lean 4 byte-count induction over arbitrary surviving frames + per-record pass theorems; lossy-script correspondence; fault-enumeration oracle",
